@@ -43,9 +43,14 @@ Header == { [c |-> "header", how |-> h] :
               h \in { "ok", "no_paren", "no_dot", "no_colon", "no_close", "alpha_sec", "alpha_ms", "alpha_seq", "empty_sec", "empty_seq",
                       "seq_overflow", "neg_seq", "huge_sec", "no_msg", "no_type", "unknown_type", "unknown_bracket", "spaces", "only_header" } }
 
+\* the three numbers of the header, each written with 0..24 digits: zeros, nines, a small value behind
+\* leading zeros, a one ahead of zeros, a sign; the other two numbers stay ordinary
+HdrNum == { [c |-> "hdrnum", field |-> f, len |-> n, fill |-> x] :
+              f \in { "sec", "ms", "seq" }, n \in 0..24, x \in { "zeros", "nines", "lead0", "one0", "plus", "minus" } }
+
 All == (IF "shape" \in Family THEN Shape ELSE {}) \cup (IF "pair" \in Family THEN Pair ELSE {}) \cup (IF "saddr" \in Family THEN Saddr ELSE {})
        \cup (IF "selinux" \in Family THEN Selinux ELSE {}) \cup (IF "avc" \in Family THEN Avc ELSE {})
-       \cup (IF "execve" \in Family THEN Execve ELSE {}) \cup (IF "header" \in Family THEN Header ELSE {})
+       \cup (IF "execve" \in Family THEN Execve ELSE {}) \cup (IF "header" \in Family THEN Header \cup HdrNum ELSE {})
 
 Init == c \in All
 Next == UNCHANGED c
